@@ -5,25 +5,35 @@
 (* <<"BEH", hist>>; hist is a sequence of integer tuples                            *)
 (*   <<1, c, s, pos, n>>  the peer writes n bytes at offset pos of stream s (0 out, 1 err) *)
 (*   <<2, c, v>>          the peer sends exit status v                               *)
-(*   <<3, c, s>>          the transport thread dispatches the head message           *)
+(*   <<3, c, s>>          the transport thread dispatches the head message (s: 2 exit status, 3 EOF, 4 CLOSE) *)
+(*   <<6, c>> / <<7, c>>  the peer sends EOF / CLOSE                                  *)
 (*   <<4, c>>             set_combine_stderr(True) on channel c                      *)
 (*   <<5, c, ep, k, runs>> recv (ep 0) / recv_stderr (ep 1) asking for k bytes returns*)
 (*                        runs = <<<<s, pos, n>>, ...>>                             *)
+(* LateSwitch = TRUE directs the generation at "run a command, wait for it to end,  *)
+(* then read everything combined": the switch comes only after EOF / CLOSE has been  *)
+(* processed and stderr is not read before it.                                       *)
 (* The check executes each step on real Channel objects and compares every read.    *)
 EXTENDS ChannelStreams
+CONSTANT LateSwitch
 VARIABLE hist
-SC(s) == IF s = "out" THEN 0 ELSE IF s = "err" THEN 1 ELSE 2
+SC(s) == CASE s = "out" -> 0 [] s = "err" -> 1 [] s = "exit" -> 2 [] s = "eof" -> 3 [] s = "close" -> 4
 RunTuples(q) == [j \in 1..Len(q) |-> <<SC(q[j].s), q[j].pos, q[j].n>>]
 GInit == Init /\ hist = <<>>
 GNext ==
   \/ \E c \in Chans, s \in Eps, n \in 1..MaxMsg :
         PeerWrite(c, s, n) /\ hist' = Append(hist, <<1, c, SC(s), sent[c][s], n>>)
   \/ \E c \in Chans, v \in Statuses : PeerExit(c, v) /\ hist' = Append(hist, <<2, c, v>>)
-  \/ (FeedOut \/ FeedExtAtomic \/ ExitStatus) /\ hist' = Append(hist, <<3, Head(wire).c, SC(Head(wire).s)>>)
-  \/ \E c \in Chans : CombineAtomic(c) /\ hist' = Append(hist, <<4, c>>)
+  \/ \E c \in Chans : PeerEof(c) /\ hist' = Append(hist, <<6, c>>)
+  \/ \E c \in Chans : PeerClose(c) /\ hist' = Append(hist, <<7, c>>)
+  \/ (FeedOut \/ FeedExtAtomic \/ ExitStatus \/ EofOrClose) /\ hist' = Append(hist, <<3, Head(wire).c, SC(Head(wire).s)>>)
+  \/ \E c \in Chans : (LateSwitch => shut[c]) /\ CombineAtomic(c) /\ hist' = Append(hist, <<4, c>>)
   \/ \E c \in Chans, ep \in Eps, k \in ReadSizes :
+        (LateSwitch /\ ep = "err" => swpc[c] = "on") /\
         Recv(c, ep, k) /\ hist' = Append(hist, <<5, c, SC(ep), k, RunTuples(TakeBytes(buf[c][ep], k))>>)
 GSpec == GInit /\ [][GNext]_<<vars, hist>>
-Complete == \A c \in Chans : statusSent[c] # None /\ status[c] # None /\ Drained(c)
+Complete == \A c \in Chans : /\ statusSent[c] # None /\ status[c] # None /\ Drained(c)
+                              /\ pstate[c] # "open" /\ shut[c]
+                              /\ (LateSwitch => swpc[c] = "on")
 Emit == Complete => PrintT(<<"BEH", hist>>)
 =============================================================================
